@@ -47,8 +47,8 @@ quick   : all tiles of levels 1..4 (340 per system) + 400 random tiles of depth 
           (uniform, pole-hugging, border/equator, diagonals); all 65 536 pixels of each tile
           against the model; 24 pixels per tile (4 corner pixels, 4 centre pixels, 16 random)
           against toasty's own deeper tile.
-          + call sequences: for 20 level-1/2 positions and 40 random ones (depth 3..20) the five
-          sequence kinds of ``_sequences`` (both systems consecutively in both orders, repeats,
+          + call sequences: for the 4 level-1 positions, 6 random level-2 and 24 random ones of depth
+          2..19 the six sequence kinds of ``_sequences`` (both systems consecutively in both orders, repeats,
           two positions interleaved across systems, partner positions sharing n&x / n&y / x&y),
           every result compared with the model, every retained result re-compared at the end.
 thorough: levels 1..6 (5460 per system) + 2500 random tiles of depth 7..20 per system;
@@ -254,8 +254,11 @@ def work_order(scripts):
     from toasty.pyramid import Pos
     res = []
     n_req = 0
+    models = {}        # oracle side only: model grids of the (system, position) pairs of the current scripts
     for kind, seq in scripts:
-        models = {}
+        keys = set((r[0], int(r[1]), int(r[2]), int(r[3])) for r in seq)
+        for k_ in [k_ for k_ in models if k_ not in keys]:
+            del models[k_]
         n_req += len(seq)
         for (obl, wit, msg) in _run_sequence(T, Pos, kind, seq, models):
             res.append([obl, wit, msg])
@@ -316,22 +319,23 @@ def run(ctx):
     timeout = 540 if ctx.thorough else 120
 
     # call sequences: several requests one after the other in ONE interpreter
-    d_seq = 3 if ctx.thorough else 2
-    n_seq_rand = 400 if ctx.thorough else 40
+    d_seq = 3 if ctx.thorough else 1
+    n_seq_rand = 400 if ctx.thorough else 30
     seq_pos = [[n, x, y] for n in range(1, d_seq + 1) for x in range(1 << n) for y in range(1 << n)]
     for i in range(n_seq_rand):
-        seq_pos.append(_random_tile(rng, d_seq + 1, d_max - 1, i % 4))
+        # quick: the first 6 random positions are level-2 tiles
+        seq_pos.append(_random_tile(rng, d_seq + 1, d_seq + 1 if (not ctx.thorough and i < 6) else d_max - 1, i % 4))
     per_pos = []
     for i, p in enumerate(seq_pos):
         q = _partner(rng, p, i % 5)
         per_pos.append([[kind, seq] for kind, seq in _sequences(p, q)])
-    n_seq_jobs = max(1, min(nworkers, len(per_pos) // 4))
+    n_seq_jobs = max(1, min(nworkers, len(per_pos) // 2))
     seq_jobs = [[s_ for pp in per_pos[c::n_seq_jobs] for s_ in pp] for c in range(n_seq_jobs)]
-    ctx.bound("call order, one interpreter per %d positions: for %d positions (all of levels 1..%d, %d random of depth %d..%d) and a "
+    ctx.bound("call order, one interpreter per %d positions: for %d positions (all of levels 1..%d, %d random up to depth %d) and a "
               "partner position (same level & column / same level & row / same x,y one level deeper / transposed / random) the "
               "sequences %s of (system, position) requests to create_single_tile + toast_tile_get_coords, executed consecutively; every "
               "answer compared with the model of its own request (all 65536 pixels) and again after the sequence"
-              % (-(-len(per_pos) // n_seq_jobs), len(seq_pos), d_seq, n_seq_rand, d_seq + 1, d_max - 1,
+              % (-(-len(per_pos) // n_seq_jobs), len(seq_pos), d_seq, n_seq_rand, d_max - 1,
                  ", ".join("%s[%d]" % (k, len(q_)) for k, q_ in _sequences([1, 0, 0], [1, 0, 1]))))
 
     def do(job):
